@@ -310,6 +310,9 @@ def run(rep, tier, seed, replay=None, proof_ok=True):
                 body = ''.join(r.choice('abc xyz*/ \n*') for _ in range(r.randint(30, 200))).replace('*/', '* ')
                 text = text[:at] + ' /* ' + body + (text[at:].replace('*/', '') if r.random() < 0.5 else '')
                 kind += '+unterminated-comment'
+                # where the piece lands inside a default value it is legitimately part of that value (the scanner of default
+                # values takes '/' and '*' as word characters): its characters belong to the input like any token's
+                t = list(t) + [('raw', '/* ' + body)]
             cases.append((kind, t, text))
     if replay:
         import json
